@@ -817,6 +817,43 @@ PINNED_DERIVED = [("TAI", 57754 * DAY_US + 10 * 10**6, 3600 * 10**6, "add"), ("T
                   ("TAI", 57754 * DAY_US, 3 * 1800 * 10**6, "range"), ("GPS", 57754 * DAY_US + 10 * 10**6, 43200 * 10**6, "sub")]
 
 
+def check_ctor_forms(out, scale, us):
+    """every constructor form of the docstring gives the date the `datetime` form gives: calendar arguments, `(day, seconds)`,
+    float MJD (resolution of a double MJD: 1 us), `Date(date)`, and an int MJD at midnight"""
+    from beyond.dates import Date
+    ref = mkdate(us, scale)
+    dt = dt_of(us)
+    day, tod = us // DAY_US, us % DAY_US
+    forms = [("calendar", lambda: Date(dt.year, dt.month, dt.day, dt.hour, dt.minute, dt.second, dt.microsecond, scale=scale), 0),
+             ("day-seconds", lambda: Date(day, tod / 1e6, scale=scale), 0),
+             ("day-int-seconds", (lambda: Date(day, tod // 10**6, scale=scale)) if tod % 10**6 == 0 else None, 0),
+             ("mjd-float", lambda: Date(day + tod / DAY_US, scale=scale), 1),
+             ("copy", lambda: Date(ref), 0),
+             ("copy-of-derived", lambda: Date(derived), 0),
+             ("mjd-int", (lambda: Date(day, scale=scale)) if tod == 0 else None, 0),
+             ("lowercase-scale", lambda: Date(dt, scale=scale.lower()), 0)]
+    derived = ref.change_scale(scale)
+    for name, build, tol in forms:
+        if build is None:
+            continue
+        if name == "copy-of-derived":
+            # a copy is compared with what it copies (a UT1 / TDB date converted to its own scale may move by the rounding of its offset)
+            ref_, ref = ref, derived
+        inp = {"ctor_form": name, "scale": scale, "clock_us": us, "clock": str(dt)}
+        out.count(key=("ctor", name, scale, us), kind="ctor-form", form=name, scale=scale)
+        x = build()
+        di = td_us(x - ref)
+        near = min(tod, DAY_US - tod) <= 2 and tol      # a float MJD within its resolution of midnight may fall on the other day
+        same_rec = (round(x.eop.tai_utc * 1e7), round(x.eop.ut1_utc * 1e7)) == (round(ref.eop.tai_utc * 1e7), round(ref.eop.ut1_utc * 1e7))
+        if x.scale.name != scale or abs(di) > tol or (tol == 0 and scale in UNIFORM and not (x == ref and hash(x) == hash(ref))) \
+                or abs(td_us(x.datetime - ref.datetime)) > tol or (not same_rec and not near) or x.d != ref.d or abs(x.s - ref.s) > 1e-6 * max(tol, 1e-3):
+            out.fail(f"ctor-form:{name}:{scale if scale in ('UT1', 'TDB') else 'uniform'}", "a constructor form does not build the date the datetime form builds (scale, instant, ==, hash, clock reading, record, d/s)", inp,
+                     observed=[x.scale.name, di, str(x.datetime), x.d, x.s, x.eop.ut1_utc], expected=[scale, 0, str(ref.datetime), ref.d, ref.s, ref.eop.ut1_utc])
+            return
+        if name == "copy-of-derived":
+            ref = ref_
+
+
 class _Grab(logging.Handler):
     def __init__(self):
         super().__init__()
@@ -1111,6 +1148,15 @@ def oracle(ctx, widened):
         scale = rng.choice(UNIFORM)
         check_range(out, rng, scale, gen_label(rng, scale))
     check_derived_all(out, rng, big)
+    for scale in SCALES:
+        for _ in range(80 if not big else 800):
+            us = gen_label(rng, scale)
+            if rng.random() < 0.2:
+                us -= us % 10**6
+            if rng.random() < 0.1:
+                us -= us % DAY_US
+            if not in_leap_window(scale, us):
+                check_ctor_forms(out, scale, us)
     check_policy(out, rng)
     check_boundaries(out, rng, big)
     _, _, first, last = tables()
@@ -1132,6 +1178,8 @@ def replay(f):
         check_leap_day_date(out, i["leap_day"], i["delta_us"])
     elif "boundary_day" in i:
         check_day_boundary_date(out, i["boundary_day"], i["delta_us"])
+    elif "ctor_form" in i:
+        check_ctor_forms(out, i["scale"], i["clock_us"])
     elif "pair_float" in i:
         check_pair_float(out, rng, i["pair_float"][0], i["pair_float"][1], i["day"], float(i["seconds"]))
     elif "derived_scale" in i:
